@@ -51,8 +51,10 @@ class Executor(object):
         _setup()
         P.restore_constants()
         P.BARRIER.log[:] = []
+        P.GRIDS.clear()
         self.memo = {}
         self.done = []
+        self.held = []          # results the caller still holds: (call name, object, canonical form when it was returned)
 
     def _watch(self, args):
         out = []
@@ -68,10 +70,20 @@ class Executor(object):
         except Discard:
             return None      # an argument object could not be constructed (another property's business)
         watched = self._watch(args)
+        raw = None
         try:
-            res = ["ok", P.canon(fn(*args))]
+            raw = fn(*args)
+            res = ["ok", P.canon(raw)]
         except Exception as e:   # noqa: an exception is a result too; it must be the same with and without history
             res = ["exc", type(e).__name__, str(e)[:200]]
+        # (c') results returned earlier still belong to the caller: a later call must not change them
+        for name0, obj0, canon0 in self.held:
+            if P.canon(obj0) != canon0:
+                raise Fail("a result returned by %s was changed by a later call (%s)" % (name0, call["fn"]), expected=canon0,
+                           observed=P.canon(obj0), bucket="result aliased " + name0)
+        if raw is not None and not isinstance(raw, (int, float, str, bool)):
+            self.held.append((call["fn"], raw, res[1]))
+            del self.held[:-8]
         # (c) arguments untouched
         for i, a, before in watched:
             if P.canon(a) != before:
@@ -304,12 +316,12 @@ def run_machine(sc, n, seed, tier):
 
 SUBCHECKS = [
     SubCheck("state_machine", check_history, strategy=None, nontrivial=_nt, classes=_classes, quick=60, thorough=3000,
-             shards_quick=6, shards_thorough=16, setup=_setup,
+             shards_quick=12, shards_thorough=48, setup=_setup,
              rule="Hypothesis RuleBasedStateMachine (rules: new call / repeat an earlier call / threaded re-run of the last calls); after "
                   "every step: constants snapshot + write-barrier log, arguments deep-equal, result == first evaluation == evaluation in "
                   "a process without history"),
-    SubCheck("generated_histories", check_history, strategy=history_cases, nontrivial=_nt, classes=_classes, quick=90, thorough=4000,
-             shards_quick=6, shards_thorough=16, setup=_setup,
+    SubCheck("generated_histories", check_history, strategy=history_cases, nontrivial=_nt, classes=_classes, quick=96, thorough=4000,
+             shards_quick=16, shards_thorough=64, setup=_setup,
              rule="the same invariants over histories drawn as lists (length 1..50) so that every history is a plain replayable value"),
 ]
 SUBCHECKS[0].custom = run_machine
